@@ -123,6 +123,11 @@ func (r *run) callStatic(fr *frame, st *State, callee *ssa.Function, args, bindi
 	case "errors.Is":
 		return []Val{{Term: fmt.Sprintf("(and (not (= %s 0)) (err_is %s %s))", args[0].Term, args[0].Term, args[1].Term), Sort: "Bool", Type: types.Typ[types.Bool]}}
 	}
+	if callee.Name() == "init" && callee.Synthetic != "" {
+		// initialisers of imported packages have run before this package's own
+		r.assumed["package initialisers of imported packages are not followed: "+key] = true
+		return nil
+	}
 	ct := r.eng.Contracts[key]
 	if ct == nil && callee.Origin() != nil {
 		ct = r.eng.Contracts[callee.Origin().String()]
@@ -338,11 +343,35 @@ func (r *run) applyContract(fr *frame, st *State, ct *Contract, sig *types.Signa
 	pre := st.clone()
 	eff := &effects{cells: map[*ssa.Alloc]bool{}, heaps: map[string]bool{}, globals: map[*ssa.Global]bool{}}
 	r.contractEffects(ct, eff)
+	delete(eff.heaps, "MAP") // map frames are exact at a call site (below)
 	if !ct.AssignsSet && !ct.Trusted {
 		// no frame given for a repo function: it may write anything reachable
 		// (conservative); trusted dependency contracts without assigns are pure.
 	}
 	r.havocHeaps(st, eff)
+	// "assigns map:<expr>": only the contents of that one map change (exact frame)
+	for _, a := range ct.Assigns {
+		if !strings.HasPrefix(a, "map:") {
+			continue
+		}
+		ex, err := ParseSpec(strings.TrimPrefix(a, "map:"))
+		if err != nil {
+			r.unsupported("bad assigns clause %q", a)
+		}
+		mv := env.tr(ex)
+		if mv.Type == nil {
+			r.unsupported("assigns %s: map type unknown", a)
+		}
+		if _, isMap := mv.Type.Underlying().(*types.Map); !isMap {
+			r.unsupported("assigns %s: not a map", a)
+		}
+		dom, val, _, _ := r.mapHeaps(mv.Type)
+		for _, hn := range []string{dom, val} {
+			h := r.heapGet(st, hn)
+			nc := r.fresh("mapc", r.heapSort[hn])
+			st.heaps[hn] = r.share(fmt.Sprintf("(store %s %s %s)", h, mv.Term, nc), "(Array Int "+r.heapSort[hn]+")")
+		}
+	}
 	nn := r.fresh("nxt", "Int")
 	r.assume("true", fmt.Sprintf("(>= %s %s)", nn, st.nxt))
 	nxtBefore := st.nxt
